@@ -663,29 +663,37 @@ func c08EncodingTable(c *Ctx) {
 	want := map[string]string{"csv": "lib.NewCSVEncoder", "gob": "lib.NewEncoder", "json": "lib.NewJSONEncoder"}
 	got := map[string]string{}
 	var lastIf *ssa.If
-	eachInstr(fn, func(i ssa.Instruction) {
-		bo, ok := i.(*ssa.BinOp)
-		if !ok || bo.Op != token.EQL {
-			return
+	toParam := ssa.Value(fn.Params[1])
+	for _, f := range region(fn) {
+		if f != fn && !onlyCalledFrom(c, f, fn) {
+			continue
 		}
-		if p, isP := bo.X.(*ssa.Parameter); !isP || p.Name() != fn.Params[1].Name() {
-			return
-		}
-		k, isS := constString(bo.Y)
-		if !isS {
-			return
-		}
-		ifi := trueImpliesIf(bo)
-		if ifi == nil {
-			return
-		}
-		lastIf = ifi
-		for _, ins := range ifi.Block().Succs[0].Instrs {
-			if call, ok := ins.(*ssa.Call); ok && strings.HasPrefix(callName(&call.Call), "lib.New") {
-				got[k] = callName(&call.Call)
+		eachInstr(f, func(i ssa.Instruction) {
+			bo, ok := i.(*ssa.BinOp)
+			if !ok || bo.Op != token.EQL {
+				return
 			}
-		}
-	})
+			if bo.X != toParam && !(f != fn && throughParam(c, bo.X) == toParam) {
+				return
+			}
+			k, isS := constString(bo.Y)
+			if !isS {
+				return
+			}
+			ifi := trueImpliesIf(bo)
+			if ifi == nil {
+				return
+			}
+			if lastIf == nil || instrDominates(lastIf, ifi) {
+				lastIf = ifi
+			}
+			for _, ins := range ifi.Block().Succs[0].Instrs {
+				if call, ok := ins.(*ssa.Call); ok && strings.HasPrefix(callName(&call.Call), "lib.New") {
+					got[k] = callName(&call.Call)
+				}
+			}
+		})
+	}
 	var diffs []string
 	for k, w := range want {
 		if got[k] != w {
